@@ -118,5 +118,11 @@ CHECKS["C12"] = (
     "Theorems: the pseudo-loss is -mean(w_i log pi_i), rejects (N,1) against (N,) shapes, and its derivative is -mean(w_i dlog pi_i) (weights are constants); the PPO policy term at unchanged parameters has the value and derivative of the unclipped surrogate, a sample clipped on the side its advantage favours has zero derivative, the value term is the per-sample squared error for (N,) and (N,1) critic outputs; DPG loss = -mean Q; SAC actor loss = mean(alpha log pi - min Q); the temperature loss has derivative -alpha (mean log pi + target), negative exactly when the entropy estimate is below the target. Values and jax gradients of the real functions are compared with the documented formulas and with the dual-number evaluation of the extracted model on every run.",
     "Trusts: Coq kernel + standard-library real-number axioms; extraction, OCaml glue, harness; policy / critic forward passes are oracles; JAX autodiff is trusted to differentiate the traced program; max/min kinks are avoided by the generators; float32 tolerance 1e-4.",
 )
+CHECKS["C01"] = (
+    "DESIGN.md §2 C01",
+    "Coq proof (invariant of the training-loop skeleton over an append-only environment call log, for every episode script, budget, start count, episode limit, limit position and update gate) + correspondence: every routine run on scripted recording environments with every add_sample call recorded",
+    "Theorem: in the loop skeleton shared by the off-policy routines the kept transitions are exactly the environment's step events (observation returned last before the action, action, reward, successor, termination flag), in order and across episode boundaries, and the policy is conditioned on that observation; the 'reset then unconditionally next_obs' variant is refuted with a witness. On every run train_dqn / nature_dqn / ddqn / ddqn_per / ddpg / td3 / td3_lap / sac / td7 / mrq / pets, sample_trajectories and the A2C / PPO collectors are executed on scripted environments; each kept transition is compared with the environment's own call log and with the extracted skeleton.",
+    "Trusts: Coq kernel (no axioms), extraction, OCaml glue, harness and the scripted environment. The skeleton abstracts networks, updates and action choice as oracles; one configuration per routine (gate, limit position) is hand-written in harness/loopchecks.py. Tabular routines are covered through the recorded update arguments in the C14 check.",
+)
 _PENDING = "check not built yet in this revision (planned: Coq model + correspondence, see DESIGN.md §2)"
 NOT_APPLICABLE = {f"C{i:02d}": _PENDING for i in range(1, 21) if f"C{i:02d}" not in CHECKS}
